@@ -415,6 +415,41 @@ def string_indirection_scripts():
     ]
 
 
+def residual_scripts():
+    """access paths that a name blacklist does not see: attribute names carried by strings in
+    other syntactic positions, bound builtins, safe-module functions that open or evaluate"""
+    return [
+        Script("residual/safe-function-alias", "import tokenize\n_f = tokenize.open\n_f('/etc/hostname')"),
+        Script("residual/builtin-self", "_b = print.__self__\n_f = _b.exec\n_f('_z = 1')"),
+        Script("residual/builtin-self-open", f"_b = len.__self__\n_f = _b.open\n_f('{CANARY}', 'w')"),
+        Script("residual/match-class-pattern",
+               "match (lambda: 0):\n    case object(__globals__=_g):\n        _b = _g['__builtins__']\n        _f = _b.exec\n        _f('_z = 1')"),
+        Script("residual/match-class-pattern-subclasses",
+               "match object:\n    case type(__subclasses__=_s):\n        _c = [c for c in _s() if c.__name__ == 'BuiltinImporter'][0]\n"
+               "        match _c:\n            case type(load_module=_l):\n                _m = _l('posix')\n                _f = _m.listdir\n                _f('.')"),
+        Script("residual/singledispatch-annotation",
+               "import functools\n@functools.singledispatch\ndef _f(x):\n    pass\n@_f.register\ndef _(x: \"exec('_z = 1')\"):\n    pass"),
+        Script("residual/formatter-get-field",
+               "import string\n_o = string.Formatter().get_field('0.__globals__', [lambda: 0], {})[0]\n_f = _o['__builtins__'].exec\n_f('_z = 1')"),
+        Script("residual/site-builtin-license", "license()"),
+        Script("residual/site-builtin-help", "help('json')"),
+        Script("residual/typing-eval-type", "import typing\n_t = typing._eval_type(typing.Optional['exec'], {'exec': 1}, {})"),
+        Script("residual/dataclass-string-annotation",
+               "import dataclasses\n@dataclasses.dataclass\nclass _A:\n    x: \"exec('_z = 1')\" = 0"),
+        Script("residual/namedtuple-rename", "import collections\n_P = collections.namedtuple('P', ['x', 'class'], rename=True)"),
+        Script("residual/json-load-needs-file", "import json\n_f = json.load"),
+        Script("residual/types-functiontype",
+               "import types\ndef _g():\n    return 1\n_h = types.FunctionType"),
+        Script("residual/statistics-random-os", "import statistics\nstatistics.random._os.listdir('.')"),
+        Script("residual/subscript-modules", "import ast\n_m = ast.__dict__"),
+        Script("residual/star-import-module", f"from json import *\nfrom json.decoder import *\n"),
+        Script("residual/import-as-shadowing-name", f"import json as open\n"),
+        Script("residual/exception-traceback", "try:\n    1 / 0\nexcept Exception as e:\n    _t = e.__traceback__\n    _f = _t.tb_frame"),
+        Script("residual/zoneinfo", "import zoneinfo\nzoneinfo.ZoneInfo('UTC')"),
+        Script("residual/contextlib-chdir", "import contextlib\nwith contextlib.chdir('/'):\n    pass"),
+    ]
+
+
 def file_level_scripts():
     body = f"_x = 1\n"
     evil_sibling = f"open('{CANARY}', 'w')\n".encode()
